@@ -803,14 +803,22 @@ func (m *Model) recvData(ev *Event) {
 			"DATA of %d bytes on stream %d: %d bytes received but the stream window only ever allowed %d (initial window at most %d + %d of WINDOW_UPDATE)",
 			L, s.ID, s.Recv, m.maxInit()+s.WUSent, m.maxInit(), s.WUSent)
 	}
-	for i, b := range ev.Data {
-		if m.H.RespEqual(s.Token, off, ev.Data) {
-			break
-		}
-		if b != m.H.RespByte(s.Token, off+int64(i)) {
-			m.viol(ev.Seq, "outbound:content-mismatch",
-				"stream %d: response body byte %d is %#x, the handler wrote %#x there", s.ID, off+int64(i), b, m.H.RespByte(s.Token, off+int64(i)))
-			break
+	if !m.H.RespEqual(s.Token, off, ev.Data) {
+		for i, b := range ev.Data {
+			if want := m.H.RespByte(s.Token, off+int64(i)); b != want {
+				// a frame that was being written while the stream was reset is
+				// still a frame of this stream: its payload must be the handler's
+				shape := ""
+				switch {
+				case s.ClientRst:
+					shape = ":frame-in-flight-at-client-rst"
+				case s.SrvRst:
+					shape = ":after-server-rst"
+				}
+				m.viol(ev.Seq, "outbound:content-mismatch"+shape,
+					"stream %d: response body byte %d is %#x, the handler wrote %#x there (frame of %d bytes at offset %d)", s.ID, off+int64(i), b, want, len(ev.Data), off)
+				break
+			}
 		}
 	}
 	if ev.Fin() {
